@@ -460,6 +460,8 @@ REANNOUNCED = []
 
 
 def accept_failure(rec):
+    if txflow.note_stale(rec):     # observation 181 of the pipeline suite (same fact as "reannounce" below): not judged
+        return False
     if rec.get("suite") == "txflow":
         ops, st = rec.get("ops", []), rec.get("step", 0)
         at_block = 0 <= st < len(ops) and ops[st][0] == "block"
